@@ -525,6 +525,7 @@ package wire
 //@   ensures [on-error] implies(result1 != nil, result0 == 0)
 //@   ensures [ranges-wire-valid] implies(result1 == nil, frame.wireValid())
 //@   ensures [delay-non-negative] implies(result1 == nil, frame.DelayTime >= 0)
+//@   ensures [packet-numbers-in-range] implies(result1 == nil, forall(k, 0, len(frame.AckRanges), 0 <= frame.AckRanges[k].Smallest && frame.AckRanges[k].Largest <= 4611686018427387903, trig(frame.AckRanges, k)))
 //@   modifies frame.AckRanges, frame.DelayTime, frame.ECT0, frame.ECT1, frame.ECNCE, elems(AckRange)
 //@ loop parseAckFrame #0
 //@   invariant 0 <= len(b) && len(b) + 4 <= startLen && startLen == len(old(b)) && len(frame.AckRanges) >= 1
@@ -776,13 +777,13 @@ package wire
 //@   props C13
 //@   requires len(b) <= 1099511627776
 //@   ensures [versions-non-empty] implies(result3 == nil, len(result2) >= 1 && 4 * len(result2) == len(b) - vnhdr(b))
-//@   ensures [versions-from-packet] implies(result3 == nil, forall(k, 0, len(result2), int(result2[k]) == be32(b, vnhdr(b) + 4 * k)))
+//@   ensures [versions-from-packet] implies(result3 == nil, forall(k, 0, len(result2), int(result2[k]) == be32(b, vnhdr(b) + 4 * k), trig(result2, k)))
 //@   ensures [error-no-output] implies(result3 != nil, dest == nil && src == nil && result2 == nil)
 //@   modifies nothing
 //@ loop ParseVersionNegotiationPacket #0
 //@   invariant 0 <= i && len(b) % 4 == 0 && 4 * i + len(b) == 4 * len(versions) && len(b) >= 0 && n == vnhdr(old(b)) && 4 * len(versions) == len(old(b)) - n
-//@   invariant forall(j, 0, len(b), b[j] == old(b)[n + 4 * i + j])
-//@   invariant forall(k, 0, i, int(versions[k]) == be32(old(b), n + 4 * k))
+//@   invariant forall(j, 0, len(b), b[j] == old(b)[n + 4 * i + j], trig(b, j))
+//@   invariant forall(k, 0, i, int(versions[k]) == be32(old(b), n + 4 * k), trig(versions, k))
 //@   modifies versions[*]
 
 //@ func (h *ExtendedHeader) Log
